@@ -9,7 +9,9 @@ the result) is run over the same generated definitions
   * scenario part (c12_scen.py, scenario_oracle): sequences of functions, classes, bare docstrings and argparse
     functions that contain conversions which RAISE part-way (caught, the driver goes on), lines with several default
     announcements, empty / blank / stub docstrings, prose that uses another docstring dialect's section markers,
-    families of definitions whose defaults are equal across types (1 / 1.0 / True / '1') and repeated points; every
+    families of definitions whose defaults are equal across types (1 / 1.0 / True / '1'), repeated points, and LIVE
+    objects (kinds live / live-init: a generated module is written to disk and imported, the function / class object
+    itself goes to parse.function / parse.class_, several per process, signatures annotated with typing generics); every
     point of every run (seed sweep in natural
     order, reversed, doubled and shuffled orders in one process) must equal the same point converted ALONE in a fresh
     process.  A difference is attributed to the hash seed (witness: the point and two seeds) or to the history
@@ -78,9 +80,36 @@ def attempt(f):
         return "EXC:" + type(e).__name__
 
 
+LIVE_DIR = os.path.join(os.path.dirname(os.path.abspath(sys.argv[1])), "live")
+
+
+def live_object(src):
+    """the module text written to a file and imported; the target is its last top-level def / class"""
+    import hashlib, importlib
+    name = "c12live_" + hashlib.md5(src.encode()).hexdigest()[:16]
+    target = [s for s in ast.parse(src).body if isinstance(s, (ast.FunctionDef, ast.ClassDef))][-1].name
+    if name not in sys.modules:
+        os.makedirs(LIVE_DIR, exist_ok=True)
+        path = os.path.join(LIVE_DIR, name + ".py")
+        if not os.path.exists(path):
+            tmp = "%s.%d.tmp" % (path, os.getpid())
+            with open(tmp, "w") as f:
+                f.write(src)
+            os.replace(tmp, path)
+        if LIVE_DIR not in sys.path:
+            sys.path.append(LIVE_DIR)
+        importlib.invalidate_caches()
+    return getattr(importlib.import_module(name), target)
+
+
 def parse_any(kind, src):
     if kind == "docstring":                      # a bare interface description
         return parse.docstring(src)
+    if kind in ("live", "live-init"):            # an object "in your memory": the inspect.signature path
+        obj = live_object(src)
+        if not isinstance(obj, type):
+            return parse.function(obj)
+        return parse.class_(obj, **({"merge_inner_function": "__init__"} if kind == "live-init" else {}))
     tree = ast.parse(src).body[0]
     if kind == "function":
         return parse.function(tree)
@@ -580,7 +609,9 @@ def oracle(rng, tier):
                 "byte for byte; non-trivial = distinct definition with >= 2 strata tags.  Scenario part (c12_scen): "
                 "sequences of functions, classes, bare docstrings and argparse functions with failing conversions, "
                 "several default announcements per line, empty docstrings, prose using another dialect's section "
-                "markers, families of defaults equal across types (1, 1.0, True, '1') and repeats; every point of every run (seed "
+                "markers, families of defaults equal across types (1, 1.0, True, '1'), repeats and live imported objects "
+                "(function / class objects of generated modules with typing-generic annotations, the inspect.signature "
+                "path); every point of every run (seed "
                 "sweep, reversed, doubled and shuffled orders) is compared with the same point converted alone in a "
                 "fresh process; differences are attributed to the hash seed or to a minimised history",
         "failures": short,
